@@ -93,8 +93,10 @@ def vecOps (nz : Path → Bool → R) : Ops K R where
     else (lin (coefs (Gen.split_HR_W sqrt s m e)) par.1 par.2 x1 x2, lin (coefs (Gen.split_HR_H sqrt s m e)) par.1 par.2 x1 x2)
   noise := nz
   zero := 0
-  agg := fun _ acc _ _ v => (acc.1 + v.1, acc.2)   -- the increment part of the aggregation loop (`Model.aggStep`); H not modelled here
-  toU := fun wh _ _ => wh.1
+  -- the aggregation step and `_H_to_U` of the object (`Model.aggStep`, `Model.toU`) acting on random variables
+  agg := fun ta acc s e v =>
+    (acc.1 + v.1, (1 / (e - ta)) • ((e - s) • (v.2 + (1 / 2 : K) • acc.1) + (s - ta) • (acc.2 - (1 / 2 : K) • v.1)))
+  toU := fun wh ta tb => (tb - ta) • ((1 / 2 : K) • wh.1 + wh.2)
 
 /-- **tie to the regenerated kernels**: on coefficient vectors (`R = ι → K`) the vector-valued split is the regenerated scalar kernel
 applied coordinate by coordinate. -/
